@@ -1,9 +1,10 @@
 package hx
 
 import (
-	"github.com/nautilus/gateway"
 	"context"
 	"fmt"
+	"github.com/nautilus/gateway"
+	"github.com/nautilus/graphql"
 	"sort"
 	"strings"
 	"time"
@@ -30,10 +31,15 @@ func (m mergeRunner) Cases(tier string) int {
 }
 
 func (m mergeRunner) Rule() string {
-	return "lists of 2-4 services drawn from one table of definitions of every kind (object field subsets, differing interface sets and descriptions: compatible by construction), a third of the cases with query fields of the gateway's own (WithQueryFields: the same names with differing types and arguments from case to case, so that gateways built one after the other in one process differ in them); each third case with one single-point difference from a catalogue of 43 (kind, field type / nullability / list depth, argument set / type / scalar, list and object defaults, enum values, union members, interface and input fields, directive executable locations and arguments, applied directives incl. repeatable multisets; plus compatible variations) applied to one service; for every order of the services (all permutations up to 4 services, each twice): gateway.New outcome in {ok, error, panic} and, when ok, the canonical dump of the merged schema captured through WithPlanner (kinds, fields with full signatures, interfaces, possible types, implements, directive definitions) are compared with the Lean merge model and with each other; the printed merged schema must load again; the routing table must equal the Lean routing model; non-trivial = at least one name defined by two services; distinct = distinct service list"
+	return "lists of 2-4 services drawn from one table of definitions of every kind (object field subsets, differing interface sets and descriptions: compatible by construction), a third of the cases with query fields of the gateway's own (WithQueryFields: the same names with differing types and arguments from case to case, so that gateways built one after the other in one process differ in them); each third case with one single-point difference from a catalogue of 43 (kind, field type / nullability / list depth, argument set / type / scalar, list and object defaults, enum values, union members, interface and input fields, directive executable locations and arguments, applied directives incl. repeatable multisets; plus compatible variations) applied to one service; for every order of the services (all permutations up to 4 services, each twice; then once more with two of the services registered under one URL): gateway.New outcome in {ok, error, panic} and, when ok, the canonical dump of the merged schema captured through WithPlanner (kinds, fields with full signatures, interfaces, possible types, implements, directive definitions) are compared with the Lean merge model and with each other; the printed merged schema must load again; the routing table must equal the Lean routing model; non-trivial = at least one name defined by two services; distinct = distinct service list"
 }
 
 var mergeCorpus = []MergeCase{
+	// a name declared once as an interface and once as another kind (each kind by exactly one service)
+	{SDLs: []string{"interface Thing { a: String }\ntype Query { x: Thing }", "type Thing { a: String }\ntype Query { y: Thing }"}, Mutation: "interface-vs-object-two-services"},
+	{SDLs: []string{"type Query { y: Thing }\nscalar Thing", "interface Thing { a: String }\ntype Impl implements Thing { a: String }\ntype Query { x: Thing }"}, Mutation: "scalar-vs-interface-two-services"},
+	{SDLs: []string{"type Node { id: ID! }\ntype Query { n: Node }"}, Mutation: "object-named-Node-vs-the-gateways-interface"},
+	{SDLs: []string{"union Thing = A | B\ntype A { a: String }\ntype B { b: String }\ntype Query { t: Thing }", "interface Thing { a: String }\ntype Query { u: Thing }", "type Query { z: String }"}, Mutation: "union-vs-interface-among-three-services"},
 	{SDLs: []string{"type Query { a: String }\nenum E { A B }", "type Query { b: String }\nenum E { A C }"}, Mutation: "D18-enum-different-values"},
 	{SDLs: []string{"interface I { a: String }\ntype Query { x: I }", "interface I { b: String }\ntype Query { y: I }"}, Mutation: "D18-interface-different-fields"},
 	{SDLs: []string{"type X { a: String }\ntype Query { x: X }", "scalar X\ntype Query { y: X }"}, Mutation: "D19-object-vs-scalar"},
@@ -347,11 +353,89 @@ func (m mergeRunner) Run(c *Ctx, i int) CaseResult {
 	}
 	res.Counters = counters
 	// attribute to the property asked for
+	if len(filterMerge(m.prop, res.Fails)) == 0 && len(schemas) >= 2 && len(mc.GatewayFields) == 0 {
+		// two entries of the service list under one URL (the URL does not determine the schema): every order of
+		// the list must give the outcome and the merged type system of the model, which does not look at URLs
+		urls := make([]string, len(schemas))
+		for k := range urls {
+			urls[k] = fmt.Sprintf("S%d", k)
+		}
+		urls[1] = urls[0]
+		var firstKind, firstCanon, firstOrd string
+		dps := perms(len(schemas))
+		if len(dps) > 6 {
+			dps = append(dps[:3], dps[len(dps)-3:]...)
+		}
+		for _, order := range dps {
+			kind, canon, errText := buildSources(schemas, urls, order)
+			counters["shared_url_constructions"]++
+			var ser []interface{}
+			for _, k := range order {
+				ser = append(ser, SerSchema(schemas[k]))
+			}
+			ser = append(ser, SerSchema(internal))
+			ans, err := c.Drv.Call(map[string]interface{}{"op": "merge", "schemas": ser})
+			if err != nil {
+				break
+			}
+			modelOK := ans["ok"] != nil
+			switch {
+			case kind == "panic":
+				add("L1.outcome-panic", fmt.Sprintf("gateway.New panicked for a service list with a shared URL, order %v: %s", order, firstLine(errText)), nil, errText)
+			case modelOK && kind != "ok":
+				add("L1.outcome-rejected", fmt.Sprintf("compatible services (two of them under one URL, order %v) are rejected: %s", order, firstLine(errText)), "ok", errText)
+			case !modelOK && kind == "ok":
+				add("L1.outcome-accepted", fmt.Sprintf("incompatible definitions (%s) are accepted when two services share a URL (order %v)", mc.Mutation, order), "error", "ok")
+			case modelOK && Canon(ans["ok"]) != canon:
+				add("L1.content", fmt.Sprintf("merged schema of a service list with a shared URL differs from the model's union (order %v): %s", order, diffHint(Canon(ans["ok"]), canon)), ans["ok"], canon)
+			}
+			if firstOrd == "" {
+				firstKind, firstCanon, firstOrd = kind, canon, fmt.Sprint(order)
+			} else if firstKind != kind {
+				add("L0.order-outcome", fmt.Sprintf("with two services under one URL: construction %s for order %s but %s for order %v", firstKind, firstOrd, kind, order), firstKind, kind)
+			} else if kind == "ok" && firstCanon != canon {
+				add("L0.order-content", fmt.Sprintf("with two services under one URL: merged type system differs between order %s and %v: %s", firstOrd, order, diffHint(firstCanon, canon)), firstCanon, canon)
+			}
+			if len(filterMerge(m.prop, res.Fails)) > 0 {
+				break
+			}
+		}
+	}
 	res.Fails = filterMerge(m.prop, res.Fails)
 	if i%29 == 0 || i < len(mergeCorpus) {
 		res.Sample = map[string]interface{}{"mutation": mc.Mutation, "services": len(mc.SDLs), "orders": counters["orders"], "outcomes": counters, "first_service": mc.SDLs[0]}
 	}
 	return res
+}
+
+// buildSources builds a gateway straight from a list of (URL, schema) entries — URLs may repeat — and captures the
+// merged schema through the planner
+func buildSources(schemas []*ast.Schema, urls []string, order []int) (kind, canon, errText string) {
+	var sources []*graphql.RemoteSchema
+	for _, k := range order {
+		sources = append(sources, &graphql.RemoteSchema{Schema: schemas[k], URL: urls[k]})
+	}
+	f := &Fed{ByURL: map[string]*Service{}}
+	factory := gateway.QueryerFactory(func(ctx *gateway.PlanningContext, url string) graphql.Queryer { return nil })
+	var gw *gateway.Gateway
+	var err error
+	var panicked interface{}
+	func() {
+		defer func() { panicked = recover() }()
+		gw, err = gateway.New(sources, gateway.WithPlanner(&capPlanner{inner: &gateway.MinQueriesPlanner{}, fed: f}), gateway.WithQueryerFactory(&factory), gateway.WithLogger(Quiet{}))
+	}()
+	if panicked != nil {
+		return "panic", "", fmt.Sprint(panicked)
+	}
+	if err != nil {
+		return "error", "", err.Error()
+	}
+	f.GW = gw
+	f.Plan(`{ __typename }`, 5*time.Second)
+	if f.Merged == nil {
+		return "error", "", "merged schema could not be captured"
+	}
+	return "ok", Canon(CanonMerged(f.Merged)), ""
 }
 
 func diffHint(a, b string) string {
